@@ -157,11 +157,12 @@ class EngineWorld:
             return SObj(QueueModel, {"items": items})
         return SObj(QueueModel, {"items": I.SList(list(items))})
 
-    def plist(self, name, maxn=3, elem=None):
+    def plist(self, name, maxn=3, elem=None, silent=False):
         """an arbitrary list (history abstraction): unknown prefix in the proof world, 0..maxn concrete
-        elements (callbacks unless `elem(i)` builds something else) in the concrete worlds"""
+        elements (callbacks unless `elem(i)` builds something else) in the concrete worlds; silent: every element,
+        when called, returns None (the elements built by `elem` must do so too)"""
         if self.ctx.mode == "sym":
-            return I.SList([], I.PBase(name, self.ctx.fresh_int(name + ".len", 0, 1 << 31)))
+            return I.SList([], I.PBase(name, self.ctx.fresh_int(name + ".len", 0, 1 << 31), silent))
         n = self.ctx.fresh_int(name + ".len", 0, maxn)
         mk = elem or (lambda i: self.callback("%s[%d]" % (name, i)))
         return I.SList([mk(i) for i in range(n)])
@@ -447,7 +448,7 @@ class NativeWorld:
             q.put(x)
         return q
 
-    def plist(self, name, maxn=3, elem=None):
+    def plist(self, name, maxn=3, elem=None, silent=False):
         n = self.int(name + ".len", 0, maxn)
         mk = elem or (lambda i: self.callback("%s[%d]" % (name, i)))
         return [mk(i) for i in range(n)]
